@@ -135,9 +135,13 @@ def ag_fill(eng, res, rule="R-AG-FILL"):
         g = [src(t) for t, pol in fl.cfg.guard_exprs(fl.cfg.node_of(adds[0])) if pol]
         ok = len(g) == 1 and "!= node" in g[0] and all(isinstance(k.value, ast.Constant) and k.value.value is True for k in adds[0].keywords)
     res.ob(rule, fi, "adds-every-other-atom", "... adds each of them except the seed itself, open for further links", adds[0] if adds else fi.node, ok)
+    from .c17 import locate
+
     ae = calls(fi, "add_edge")
-    ok = len(ae) == 1 and len(loops) == 2 and loops[1] in fl.cfg.enclosing_loops(ae[0]) and src(loops[1].iter) == "self.static_graph.edges(static_map.keys(), data=True)" \
-        and src(kwarg(ae[0], "bond_type")) in ("bond_type", "edge[2]['bond_type']")
+    cur = fi.params[1]
+    e_, nd_ = locate(fi, ["for $E in self.static_graph.edges($MAP.keys(), data=True)", "$A = $MAP[$E[0]]", "$B = $MAP[$E[1]]", "$BT = $E[2]['bond_type']", "self.graph.add_edge($A, $B, bond_type=$BT)",
+                          f"$MAP = {{self.graph.nodes[{cur}]['stochastic_node']: {cur}}}", "$MAP[$N] = $LOCAL"])
+    ok = len(ae) == 1 and e_ is not None and len(loops) == 2 and loops[1] in fl.cfg.enclosing_loops(ae[0]) and not fl.cfg.guard_exprs(fl.cfg.node_of(ae[0]))
     res.ob(rule, fi, "adds-every-static-bond", "... and every static bond among them with that bond's order", ae[0] if ae else fi.node, ok)
     return n
 
@@ -187,8 +191,11 @@ def ag_edge_origin(eng, res, rule="R-AG-EDGE-ORIGIN"):
     if ok:
         d = {k.value: src(fl.expand_names(v, fl.cfg.node_of(rets[0]))) for k, v in zip(rets[0].value.keys, rets[0].value.values)}
         e_, b_ = d.get("edge", ""), d.get("bond_type", "")
-        ok = d.get("node") == "node" and e_.endswith("[0]") and b_.endswith("[1]['bond_type']") and e_[:-3] == b_[: -len("[1]['bond_type']")] \
-            and e_.startswith("self.graph.nodes[node]['termination_edges'][")
+        lpn = [l for l in fl.cfg.enclosing_loops(rets[0]) if isinstance(l, ast.For) and src(l.iter) in ("self.graph.nodes()", "self.graph", "self.graph.nodes")]
+        nvar = lpn[0].target.id if lpn and isinstance(lpn[0].target, ast.Name) else "?"
+        e_, b_ = d.get("edge", ""), d.get("bond_type", "")
+        ok = d.get("node") == nvar and e_.endswith("[0]") and b_.endswith("[1]['bond_type']") and e_[:-3] == b_[: -len("[1]['bond_type']")] \
+            and e_.startswith(f"self.graph.nodes[{nvar}]['termination_edges'][")
         why = f"{d}"
     else:
         why = f"{len(rets)} dict return(s)"
@@ -263,16 +270,19 @@ def ag_mol(eng, res, rule="R-AG-MOL"):
     an = eng.prog.func(f"{CLS}._add_node")
     res.unit(an)
     fl = eng.flow(an)
-    d = [x for x in fl.defs if x.name == "node_id" and x.kind == "assign"]
+    from .c17 import locate as _loc
+
+    P = an.params[1]
+    e3, nd3 = _loc(an, ["$ID = len(self.graph)", f"$ND = self.stochastic_graph.nodes[{P}]", "return $ID"])
     adds = calls(an, "add_node")
-    ok = len(d) == 1 and src(d[0].value) == "len(self.graph)" and len(adds) == 1 and src(adds[0].args[0]) == "node_id" and fl.cfg.must_pass(d[0].nid, fl.cfg.node_of(adds[0]))
+    ok = e3 is not None and len(adds) == 1 and src(adds[0].args[0]) == e3["ID"] and fl.cfg.must_pass(fl.cfg.node_of(nd3["$ID = len(self.graph)"]), fl.cfg.node_of(adds[0]))
     kws = {k.arg: src(k.value) for k in adds[0].keywords} if adds else {}
-    ok = ok and kws.get("atomic_num") == "node_data['atomic_num']" and kws.get("stochastic_node") == "node"
+    ok = ok and kws.get("atomic_num") == f"{e3['ND']}['atomic_num']" and kws.get("stochastic_node") == P
     res.ob(rule, an, "node-ids-dense", "node ids are dense (the count before adding) and each node remembers its element and its source atom", an.node, ok, f"{kws}")
     # edge lists per kind, only when allowed
-    txt = src(an.node)
-    ok = all(s in txt for s in ("_is_transition_edge(edge_data) and transition_allowed", "_is_termination_edge(edge_data) and termination_allowed", "_is_stochastic_edge(edge_data) and stochastic_allowed"))
-    ok = ok and "self.stochastic_graph.out_edges(node, data=True)" in txt
+    e4, _ = _loc(an, [f"$EDGES = self.stochastic_graph.out_edges({P}, data=True)", "for $FE in $EDGES", "$ED = $FE[2]",
+                      f"if _is_transition_edge($ED) and {an.params[2]}", f"if _is_termination_edge($ED) and {an.params[3]}", f"if _is_stochastic_edge($ED) and {an.params[4]}"])
+    ok = e4 is not None
     res.ob(rule, an, "edge-lists", "a new node inherits the outgoing stochastic / termination / transition edges of its source atom, each kind only when allowed", an.node, ok)
 
 
